@@ -474,6 +474,23 @@ def run_text_and_dispatch(ctx: Ctx):
         from numbers_parser import FractionAccuracy
         doc = Document(num_header_rows=0, num_header_cols=0, num_rows=3, num_cols=3)
         table = doc.sheets[0].tables[0]
+        # calibration: the wrappers must fire on a plainly formatted cell; a refactoring that binds the formatter functions
+        # elsewhere at import time (dispatch table) bypasses them without changing anything observable - then the identity
+        # of the renderer cannot be recorded in this tree and the two dispatch streams are skipped
+        observable = True
+        for kind_, kw_, tag_ in (("number", {"decimal_places": 1}, "format_decimal"), ("currency", {}, "format_currency"),
+                                 ("base", {"base": 2}, "format_base")):
+            table.write(0, 0, 2.0)
+            table.set_cell_formatting(0, 0, kind_, **kw_)
+            del called[:]
+            _ = table.cell(0, 0).formatted_value
+            if tag_ not in called:
+                observable = False
+        del called[:]
+        if not observable:
+            ctx.notes.append("dispatch: the formatter functions of cell.py are not reached through their module attributes in this "
+                             "tree; which renderer is chosen cannot be recorded - dispatch streams skipped (texts are still compared)")
+            return
         cnum = doc.add_custom_format(type="number", num_integers=2, num_decimals=1)
         ctext = doc.add_custom_format(type="text", format="<%s>")
         cdate = doc.add_custom_format(type="datetime", format="yyyy")
